@@ -2,15 +2,17 @@ module verif/harness
 
 go 1.21
 
-require github.com/cosmos72/gomacro v0.0.0
+require (
+	github.com/cosmos72/gomacro v0.0.0
+	github.com/mattn/go-runewidth v0.0.15
+	github.com/peterh/liner v1.2.2
+	golang.org/x/tools v0.14.0
+)
 
 require (
-	github.com/mattn/go-runewidth v0.0.15 // indirect
-	github.com/peterh/liner v1.2.2 // indirect
 	github.com/rivo/uniseg v0.2.0 // indirect
 	golang.org/x/mod v0.13.0 // indirect
 	golang.org/x/sys v0.13.0 // indirect
-	golang.org/x/tools v0.14.0 // indirect
 )
 
 replace github.com/cosmos72/gomacro => /repo
